@@ -1,8 +1,7 @@
 (** C18 — domain of the theorems as a boolean on cases.
 
     * transaction ids are unique within the migration (the store keys rows by id);
-    * every height fits [u32] and every anchor boundary is below [2^32 - 11] (the plain [u32]
-      additions of [prove_ready] / the overdue test do not overflow);
+    * every height (anchor boundaries included, up to [u32::MAX]) fits [u32];
     * the planned crossing values sum below [2^64] ([replan_required] sums in [u64]);
     * threshold in [0,100], bucket interval a non-zero [u32];
     * dependencies need NOT exist and the graph need NOT be acyclic: the theorems hold without;
@@ -22,7 +21,7 @@ Definition opt_ok (f : Z -> bool) (o : option Z) : bool := match o with Some x =
 
 Definition wf_tx (t : mtx) : bool :=
   in_u32 (t_id t) && forallb in_u32 (t_deps t) && in_u32 (t_sched t) && in_u32 (t_expiry t)
-  && opt_ok (fun b => (0 <=? b) && (b <? U32MAX - 11)) (t_anchor t)
+  && opt_ok in_u32 (t_anchor t)
   && opt_ok in_u32 (option_map fst (t_unsat t)) && opt_ok in_u32 (t_fail t)
   && match t_state t with Mined h => in_u32 h | _ => true end
   && match t_kind t with Prep l i => (0 <=? l) && (0 <=? i) | Transfer c => 0 <=? c end.
@@ -43,6 +42,7 @@ Definition wf_event (ev : event) : bool :=
   | EMarkMined _ h | ERollback h => in_u32 h
   | EReportFailure _ tip => in_u32 tip
   | ERecordSat sc est dets => in_u32 sc && in_u32 est && forallb (fun p => wf_answer (snd p)) dets
+  | ERebuild _ tip _ _ _ sched anchor _ => in_u32 tip && in_u32 sched && in_u32 anchor
   | _ => true
   end.
 
@@ -58,4 +58,4 @@ Fixpoint increasing (l : list Z) : bool :=
 Definition wf_case (c : case) : bool :=
   let '(Case pre ev post _ p) := c in
   wf_state pre && wf_event ev
-  && match p with PNone => true | PRt _ _ _ => increasing (map t_id (m_txs post)) end.
+  && match p with PNone => true | PRows _ _ _ _ _ _ _ _ => increasing (map t_id (m_txs post)) end.
